@@ -51,6 +51,21 @@ def programJ (p : Program) : Json :=
   Json.mkObj [("defs", .arr (p.defs.map fun kd => Json.arr #[.str kd.1, strsJ kd.2.params]).toArray),
               ("build", .arr (p.build.map callJ).toArray)]
 
+def optStrsJ : Option (List String) → Json
+  | none => Json.null
+  | some l => strsJ l
+
+def headJ (h : String × String × Option (List String) × List (String × Option (List String))) : Json :=
+  .arr #[.str h.1, .str h.2.1, optStrsJ h.2.2.1, .arr (h.2.2.2.map fun vc => Json.arr #[.str vc.1, optStrsJ vc.2]).toArray]
+
+/-- what the model's components declare, and what the builder calls of the generated program declare
+    (`C11_build_structure`: equal for every model) -/
+def headsJ (bad : List String) (c : NContent) : Json :=
+  Json.mkObj [("model", .arr ((heads c).map headJ).toArray),
+              ("program", match toSymbolicRepr bad c with
+                | .ok s => .arr (((genProgram s).build.map Call.head).map headJ).toArray
+                | .error _ => Json.null)]
+
 def handle (j : Json) : Except String Json := do
   let fns ← jList jPyFn (← field j "fns")
   let c ← jNContent fns (← field j "content")
@@ -59,9 +74,9 @@ def handle (j : Json) : Except String Json := do
   let prog := resJ programJ ((toSymbolicRepr bad c).bind genMxlpy)
   let orig ← qs.mapM (Driver.H_core.query c.toContent)
   match roundTrip bad c with
-  | .error e => pure (Json.mkObj [("program", prog), ("hyp", .bool (refsResolve c)), ("hypInput", .bool (keysInjective c && argsNoDup c)), ("hypSrc", .bool (refsSrcOk c)), ("hypKeys", .bool (keysInjective c)), ("rt", Json.mkObj [("err", errJ e)]), ("orig", .arr orig.toArray)])
+  | .error e => pure (Json.mkObj [("heads", headsJ bad c), ("program", prog), ("hyp", .bool (refsResolve c)), ("hypInput", .bool (keysInjective c && argsNoDup c)), ("hypSrc", .bool (refsSrcOk c)), ("hypKeys", .bool (keysInjective c)), ("rt", Json.mkObj [("err", errJ e)]), ("orig", .arr orig.toArray)])
   | .ok c' => do
     let rs ← qs.mapM (Driver.H_core.query c')
-    pure (Json.mkObj [("program", prog), ("hyp", .bool (refsResolve c)), ("hypInput", .bool (keysInjective c && argsNoDup c)), ("hypSrc", .bool (refsSrcOk c)), ("hypKeys", .bool (keysInjective c)), ("rt", Json.mkObj [("ok", .arr rs.toArray)]), ("orig", .arr orig.toArray)])
+    pure (Json.mkObj [("heads", headsJ bad c), ("program", prog), ("hyp", .bool (refsResolve c)), ("hypInput", .bool (keysInjective c && argsNoDup c)), ("hypSrc", .bool (refsSrcOk c)), ("hypKeys", .bool (keysInjective c)), ("rt", Json.mkObj [("ok", .arr rs.toArray)]), ("orig", .arr orig.toArray)])
 
 end Driver.H_c11
